@@ -178,6 +178,17 @@ C06Step(e) ==
     \* "exactly the failing task": a task that is reported Running keeps reading - its streams are still registered
     /\ (e.op = "deliver" /\ e.res = "unregistered") => StateIn(e.api, TaskOfStream(e.s)).state # "Running"
 
+(* ---------------- C14 (end to end) ---------------- *)
+\* "... or when the channel shuts down": when the write loop of a downstream channel returns (event loopexit, reported by
+\* the server after the loop's final flush) while the incarnation lives, every pack the batcher was holding - delivered,
+\* not yet seen in a downstream write - of a task that is still Running has been passed to the write callback.  A step in
+\* which a downstream or checkpoint write failed is left to C05 / C06 (the rest of a failed batch is their business).
+LoopExitOK(e, nb) ==
+    \A i \in 1..Len(e.log) : e.log[i].ev = "loopexit" =>
+        \/ \E j \in 1..(i - 1) : e.log[j].ev \in {"ack", "putpos"} /\ ~e.log[j].ok
+        \/ \A id \in nb : (KnownPack(id) /\ Running(e.api, TaskOfStream(StreamOfPackId(id)))) =>
+               \E j \in 1..(i - 1) : e.log[j].ev = "ack" /\ \E k \in 1..Len(e.log[j].ids) : e.log[j].ids[k] = id
+
 (* ---------------- step ---------------- *)
 TStep ==
     /\ l <= Len(Traces[tr].events)
@@ -200,7 +211,8 @@ TStep ==
        /\ (P("C06") => okc06')
        /\ LET ackedIds == UNION {{e.log[i].ids[j] : j \in 1..Len(e.log[i].ids)} : i \in {x \in 1..Len(e.log) : e.log[x].ev = "ack"}}
               nb == (IF e.op = "deliver" /\ e.res = "ok" THEN batch \cup {e.id} ELSE batch) IN
-          /\ batch' = IF e.op \in {"boot", "restart", "kill", "pause", "resume"} \/ Crashed(e.log) THEN {}
+          /\ ((P("C14") /\ ~Crashed(e.log)) => LoopExitOK(e, nb))
+          /\ batch' = IF e.op \in {"boot", "restart", "kill"} \/ Crashed(e.log) THEN {}
                        ELSE IF ackedIds # {} \/ FailedOwners(e.log) # {} THEN {} ELSE nb
           /\ lost' = IF FailedOwners(e.log) # {} /\ ~Crashed(e.log) THEN lost \cup (nb \ acked') ELSE lost
        /\ stalled' = IF e.op \in {"boot", "restart"} THEN FALSE
